@@ -1,0 +1,74 @@
+//go:build verif
+
+package rueidis
+
+import (
+	"bufio"
+	"bytes"
+	"io"
+
+	"github.com/redis/rueidis/internal/cmds"
+)
+
+// Add-only exports used by the verification harness (obs_pipe / obs_fault / obs_ctx).
+// Nothing here changes the behaviour of existing code.
+
+// VerifPipeSetQueueType selects the queue implementation ("ring", "" or "flowbuffer") used by the
+// pipes created afterwards; it is what the RUEIDIS_QUEUE_TYPE environment variable sets at init.
+func VerifPipeSetQueueType(kind string) { queueTypeFromEnv = kind }
+
+// VerifPipeQueueType returns the current selection.
+func VerifPipeQueueType() string { return queueTypeFromEnv }
+
+// VerifPipeMsg is a plain copy of the fields of a RedisMessage that the reader loop looks at.
+type VerifPipeMsg struct {
+	Typ  byte
+	Str  string
+	Int  int64
+	Vals []VerifPipeMsg
+}
+
+// VerifPipeMsgTree copies a RedisMessage.
+func VerifPipeMsgTree(m RedisMessage) VerifPipeMsg {
+	out := VerifPipeMsg{Typ: m.typ}
+	if m.bytes != nil {
+		out.Str = string([]byte(m.string()))
+	} else if m.array != nil {
+		vs := m.values()
+		out.Vals = make([]VerifPipeMsg, len(vs))
+		for i := range vs {
+			out.Vals[i] = VerifPipeMsgTree(vs[i])
+		}
+	} else {
+		out.Int = m.intlen
+	}
+	return out
+}
+
+// VerifPipeResult splits a RedisResult into its message and its non-Redis error.
+func VerifPipeResult(r RedisResult) (VerifPipeMsg, error) {
+	return VerifPipeMsgTree(r.val), r.err
+}
+
+// VerifPipeDecode decodes a recorded server-to-client byte stream with readNextMessage, the decoder
+// the pipe uses; it returns the complete frames and the number of bytes they occupy.
+func VerifPipeDecode(stream []byte) (frames []VerifPipeMsg, used int) {
+	rd := bytes.NewReader(stream)
+	br := bufio.NewReaderSize(rd, 1<<16)
+	for {
+		m, err := readNextMessage(br)
+		if err != nil {
+			return frames, used
+		}
+		frames = append(frames, VerifPipeMsgTree(m))
+		used = len(stream) - rd.Len() - br.Buffered()
+	}
+}
+
+// VerifPipeIsStaticTTL exposes cmds.IsStaticTTL.
+func VerifPipeIsStaticTTL(c Completed) bool { return cmds.IsStaticTTL(c) }
+
+// VerifPipeErrConnExpired is the internal error handed to calls on an expired connection.
+func VerifPipeErrConnExpired() error { return errConnExpired }
+
+var _ = io.EOF
